@@ -255,3 +255,17 @@ def run_case(c):
         if not isinstance(e, ValueError):
             return {"what": "length mismatch between tilts and dose not rejected"}
         return None
+
+
+def replay_kind(kind, n=40):
+    k = 0
+    for key, case in gen_cases(5, 400):
+        if key[1] != kind and case.get("kind") != kind:
+            continue
+        k += 1
+        r = run_case(case)
+        if r is not None:
+            return {"reproduced": True, "input": {"kind": kind, "case": list(key)}, "observed": r}
+        if k >= n:
+            break
+    return {"reproduced": False, "input": f"{k} generated '{kind}' cases", "observed": None}
